@@ -86,9 +86,11 @@ Theorem C06_include_transparent :
     o_fs_read orc a = Some file ->
     o_include_opts orc (p_optblock p) = (false, iho) ->
     o_opt_validate orc include_name (p_optblock p) = (attrs, warns) ->
-    den_text_at env orc f true iho (sh0 e0) (join nl (splitlines file) ++ nl) 1 = Ok (ns, h, false) ->
+    str_eqb a (o_source orc) = false ->
+    den_text_at env orc f true iho (set_incl [a] (sh0 e0)) (join nl (splitlines file) ++ nl) 1
+      = Ok (ns, h, false) ->
     render_doc env orc (S f) e0 (unlines (print_lines (Include path) []))
-    = Ok (directive_warnings p warns 1 ++ ns, h).
+    = Ok (directive_warnings p warns 1 ++ ns, set_incl (removelast (s_incl h)) h).
 Proof. intros env orc Hadm Hfence. exact (include_transparent env orc Hadm Hfence). Qed.
 Print Assumptions C06_include_transparent.
 
@@ -105,10 +107,13 @@ Theorem C06_include_in_place :
     o_fs_read orc a = Some file ->
     o_include_opts orc (p_optblock p) = (false, iho) ->
     o_opt_validate orc include_name (p_optblock p) = (attrs, warns) ->
+    mem_str a (o_source orc :: s_incl (shr s)) = false ->     (* not a circular inclusion *)
     render_step env orc rr s (TFence false (info_of include_name path) [] mp)
     = (do s1 <- extend_cur s (directive_warnings p warns position);
-       do s2 <- nested_render_text env orc rr s1 (join nl (splitlines file)) 1 false None iho;
-       extend_cur s2 []).
+       do s2 <- nested_render_text env orc rr
+                  (set_shr (set_incl (s_incl (shr s1) ++ [a]) (shr s1)) s1)
+                  (join nl (splitlines file)) 1 false None iho;
+       extend_cur (set_shr (set_incl (removelast (s_incl (shr s2))) (shr s2)) s2) []).
 Proof. intros env orc. exact (include_unfolds env orc). Qed.
 Print Assumptions C06_include_in_place.
 
@@ -172,8 +177,8 @@ Theorem C06_body_offset_blank : forall (X : list str),
 Proof. exact split_blank. Qed.
 Print Assumptions C06_body_offset_blank.
 
-Theorem C06_body_offset_colon : forall (os X : list str) o os' xl,
-  os = o :: os' -> X <> [] -> last_opt X = Some xl -> xl <> [] ->
+Theorem C06_body_offset_colon : forall (os X : list str) o os',
+  os = o :: os' -> X <> [] ->
   all_sepfree (map (cons c_colon) os) = true -> all_sepfree X = true ->
   parse_directive_text adm_class [] (unlines (map (cons c_colon) os ++ [] :: X))
   = Ok {| p_args := []; p_optblock := Some (join nl os); p_body := X;
